@@ -103,7 +103,7 @@ func refArith(op string, a []refNum, p uint, mode int) (refValue, bool) {
 		if y.E < e {
 			e = y.E
 		}
-		if x.E-e > 20000 || y.E-e > 20000 {
+		if x.E-e > 160000 || y.E-e > 160000 {
 			return refValue{}, false
 		}
 		xs := new(big.Int).Mul(x.D, pow10Big(x.E-e))
@@ -137,7 +137,7 @@ func refArith(op string, a []refNum, p uint, mode int) (refValue, bool) {
 		if u.E < e {
 			e = u.E
 		}
-		if pe-e > 20000 || u.E-e > 20000 {
+		if pe-e > 160000 || u.E-e > 160000 {
 			return refValue{}, false
 		}
 		ps := prod.Mul(prod, pow10Big(pe-e))
